@@ -35,7 +35,7 @@ def run(ck, tier):
     try:
         p = os.path.join(work, "pals.ndjson")
         n = 1200 if thorough else 80
-        vlib.harness(["run", "-n", n, "-len", 20000 if thorough else 6000, "-regions", 12 if thorough else 16, "-seed", ck.seed, "-out", p],
+        vlib.harness(["run", "-n", n, "-len", 20000 if thorough else 6000, "-regions", 12 if thorough else 27, "-seed", ck.seed, "-out", p],
                      cmd="vpals", timeout=3400)
         v, r = vlib.validate("Pals", "PalsTrace", "PalsTrace.cfg", p, include=["Align"], timeout=3400)
         evs = vlib.read_ndjson(p)
